@@ -45,7 +45,8 @@ type sessDoc struct {
 }
 
 type sessD4 struct {
-	Z []int `json:"z"`
+	Z   []int       `json:"z"`
+	Any interface{} `json:"any,omitempty"` // holds a value (never a pointer) whose pointer type is a Marshaler: not addressable
 }
 type sessD3 struct {
 	D sessD4 `json:"d"`
@@ -99,7 +100,7 @@ func sessT3() sessType {
 
 func sessT4() sessType {
 	mk := func() sessD1 {
-		return sessD1{D: sessD2{D: sessD3{D: sessD4{[]int{1, 2}}, S: "s"}, M: map[string]sessD4{"k": {[]int{3}}}}, P: &sessD2{}, F0: 1, F20: 20, G20: "g", H15: 1.5}
+		return sessD1{D: sessD2{D: sessD3{D: sessD4{[]int{1, 2}, sessMar{9}}, S: "s"}, M: map[string]sessD4{"k": {[]int{3}, sessMar{10}}}}, P: &sessD2{}, F0: 1, F20: 20, G20: "g", H15: 1.5}
 	}
 	return sessType{reflect.TypeOf(sessD1{}), func() interface{} { return mk() }, func() interface{} { v := mk(); return &v },
 		`{"d":{"d":{"d":{"z":[4]},"s":"t"},"m":{"a":{"z":[5]}}},"p":{"d":{"s":"u"}},"f0":3,"F20":4,"G1":"h","H15":2.5}`}
@@ -184,6 +185,11 @@ func sessionRun(args []string) int {
 		for _, how := range []string{"m", "u"} {
 			probe["5."+how] = sessFillerProbe(how)
 		}
+	}
+	// values of a pointer-receiver Marshaler type held in interfaces, and the type on its own by value
+	for name, v := range map[string]interface{}{"x.ifaces": []interface{}{sessMar{5}, map[string]interface{}{"k": sessMar{6}}}, "x.val": sessMar{7}, "x.ptr": &sessMar{8}} {
+		b, err := sonic.Marshal(v)
+		probe[name] = fmt.Sprintf("%s|%v", b, err)
 	}
 	probe["names"] = fmt.Sprint(types[1].rt.String(), " ", types[2].rt.String(), " same:", types[1].rt == types[2].rt)
 	b, _ := json.Marshal(probe)
